@@ -8,6 +8,11 @@ ID=$$
 R=/tmp/mv_repo_$ID; V=/tmp/mv_verif_$ID
 git -C /repo worktree add --detach $R HEAD >/dev/null 2>&1 || { echo "worktree failed"; exit 2; }
 ( cd $R && git apply "$PATCH" ) || { echo "patch does not apply"; git -C /repo worktree remove --force $R; exit 2; }
+# uncommitted verif hook files of /repo's working tree (other workers' in-progress `//go:build verif` files):
+# without them a suite that already calls the hook does not build against the scratch worktree
+( cd /repo && git ls-files --others --exclude-standard -z | while IFS= read -r -d '' f; do
+    case "$f" in *.go) head -5 "$f" | grep -q '^//go:build verif' && { mkdir -p "$R/$(dirname "$f")"; [ -e "$R/$f" ] || cp "$f" "$R/$f"; } ;; esac
+  done )
 rsync -a --exclude .git --exclude replays --exclude work /verif/ $V/
 sed -i "s|=> /repo|=> $R|" $V/harness/go.mod
 rc=0
@@ -17,6 +22,12 @@ for P in "$@"; do
   r=$(cat $V/rc_$P.txt); [ "$r" = "1" ] && [ $rc -ne 2 ] && rc=1; [ "$r" != "0" ] && [ "$r" != "1" ] && rc=2
 done
 if [ -n "${KEEP_REPLAYS:-}" ]; then mkdir -p /tmp/mv_replays_$ID && cp -r $V/replays/* /tmp/mv_replays_$ID/ 2>/dev/null; echo "replays: /tmp/mv_replays_$ID"; fi
+# KEEP_EVIDENCE=1: keep the scratch copy's evidence/*.json and the full ./check output next to the replays
+if [ -n "${KEEP_EVIDENCE:-}" ]; then
+  mkdir -p /tmp/mv_replays_$ID/evidence
+  for P in "$@"; do cp $V/evidence/$P.json /tmp/mv_replays_$ID/evidence/ 2>/dev/null; sed "s|$V|/verif|g" $V/out_$P.txt > /tmp/mv_replays_$ID/evidence/check_output_$P.txt 2>/dev/null; done
+  echo "evidence: /tmp/mv_replays_$ID/evidence"
+fi
 git -C /repo worktree remove --force $R
 rm -rf $V
 exit $rc
